@@ -386,6 +386,32 @@ impl C04 {
                     }
                 }
             }
+            // (b3'') ... or in the adaptive fee tier the instruction acts on: the tier's initialize-pool authority and its delegated
+            // fee authority are handed to the attacker; signing as the config's fee authority must still be refused
+            if *slot == "fee_authority" {
+                if let Some(ti) = c.idx("adaptive_fee_tier") {
+                    let tk = v.ix.accounts[ti].pubkey;
+                    if let Some(ta) = v.pre.get(&tk) {
+                        if ta.owner == ix::wp() && decode::adaptive_fee_tier(&ta.data).is_some() && ta.data.len() >= 108 {
+                            let mut d = (*ta.data).clone();
+                            d[44..76].copy_from_slice(attacker.as_ref());
+                            d[76..108].copy_from_slice(attacker.as_ref());
+                            let mut f = base.clone();
+                            f.put(tk, Account::new(ta.lamports, d, ta.owner));
+                            let mut ixn = v.ix.clone();
+                            ixn.accounts[i].pubkey = attacker;
+                            ixn.accounts[i].is_signer = true;
+                            let r = exec(&f, ixn);
+                            cov.eval(format!("{}|{}|holds_the_tiers_authorities", name, slot));
+                            self.cell(format!("{} / {} / holder of both authorities of the adaptive fee tier (not the config's fee authority)", name, slot), !r.ok);
+                            if r.ok {
+                                out.push(v04("neighbouring_role_accepted", idx, format!("{}: succeeded for a key that is the tier's initialize-pool authority and delegated fee authority but not the config's fee authority, signing as `{}`", name, slot)));
+                                return;
+                            }
+                        }
+                    }
+                }
+            }
             // (b3') the neighbouring role lives in ANOTHER account: the config's authorities (fee, collect, reward super) are all
             // handed to the attacker; the config extension keeps its own recorded authorities - the attacker signing as
             // extension / token-badge authority must still be refused
